@@ -120,9 +120,18 @@ def run(ctx):
         ctx.floor('ColorPaletteEntry aggregates in parse_chunk', len(aggs), 1)
         for bb, st, t in aggs:
             idt = dict(t[3]).get('id')
-            ok = idt is not None and idt[0] == 'bin' and idt[1] == 'Add' and (
-                (idt[2][0] == 'next' and bound(idt[3], 'first')) or (idt[3][0] == 'next' and bound(idt[2], 'first')))
-            ctx.inst('P1', 'entry.id', ok, 'entry id = %s; must be loop index + first_color_index' % show(idt)[:140], st['span'],
+            ok = False
+            if idt is not None and idt[0] == 'bin' and idt[1] == 'Add':
+                ok = (idt[2][0] == 'next' and bound(idt[3], 'first')) or (idt[3][0] == 'next' and bound(idt[2], 'first'))
+            elif idt is not None and idt[0] == 'next':
+                # loop variable of first..=last
+                rg = q.unwrap_into_iter(idt[1])
+                if rg[0] == 'call' and rg[1] == 'std::ops::RangeInclusive::new':
+                    ok = bound(rg[2][0], 'first') and bound(rg[2][1], 'last')
+                elif rg[0] == 'agg' and rg[1] in ('std::ops::RangeInclusive', 'std::ops::Range'):
+                    f_ = dict(rg[3])
+                    ok = bound(f_.get('start'), 'first') and rg[1].endswith('RangeInclusive') and bound(f_.get('end'), 'last')
+            ctx.inst('P1', 'entry.id', ok, 'entry id = %s; must be first_color_index + loop index (or the loop variable of first..=last)' % show(idt)[:140], st['span'],
                      key=b.name + '|P1|id')
             nm = dict(t[3]).get('name')
             oks = sorted(x[2] if x[0] == 'agg' else '?' for x in alts(nm)) == ['None', 'Some']
